@@ -25,11 +25,16 @@ package executor
 //@   callsite GraphSyncRequest.ReplaceExtensions: assert max(rt.DoNotSendFirstBlocks, nTraversed[rt.Traverser]) > 0
 
 //@ -- C24: nothing is sent to the network unless a load came back "missing remotely", and then exactly one request is started
+//@ ghost polled set[ref]     -- done channels that traverse has polled and found open since it was entered
+//@ onsend default:struct{}(ch, v) in traverse: polled := add(polled, ch)
 //@ func Executor.traverse
 //@   lenient
 //@   safety off
-//@   modifies alloc, nStart, nTraversed, pauseTokens, lastExecPanicErr
+//@   modifies alloc, nStart, nTraversed, pauseTokens, lastExecPanicErr, polled
 //@   callsite Executor.startRemoteRequest: assert nStart == old(nStart) && dyntype(result.Err) == typetag("graphsync.RemoteMissingBlockErr")
+//@   -- C04: the request's own cancellation is polled right before the remote is asked: a request whose caller has already
+//@   -- cancelled it (the cancel went out while the traversal was still running on local blocks) must not be sent again
+//@   callsite Executor.startRemoteRequest: assert polled[doneChan(rt.Ctx)]
 //@   -- C02: on that first miss the loader is switched online before the remote is asked, and the load is retried after
 //@   callsite ReconciledLoader.SetRemoteOnline: assert arg0 == true && nStart == old(nStart)
 //@   callsite ReconciledLoader.RetryLastLoad: assert nStart == old(nStart) + 1
@@ -58,7 +63,7 @@ package executor
 //@ func Executor.ExecuteTask
 //@   lenient
 //@   safety off
-//@   modifies alloc, pauseTokens, nStart, nTraversed, lastExecPanicErr
+//@   modifies alloc, pauseTokens, nStart, nTraversed, lastExecPanicErr, polled
 //@   callsite Manager.SendRequest: assert arg0 == requestTask.P
 //@   callsite ReconciledLoader.SetRemoteOnline: assert arg0 == false
 //@   callsite Manager.ReleaseRequestTask: assert arg0 == pid && arg1 == task && arg2 == err
